@@ -61,6 +61,9 @@ def gen_rules():
             for name, m in ms:
                 o.append('* `mutants/%s/%s.diff` → %s (%s)' % (p['id'], name, m.get('expect_rule'), m.get('origin', 'hand-written')))
             for sid, m in ss:
+                if m.get('retired'):
+                    o.append('* `seeded/%s/patch.diff` — retired (no longer breaks the property; now a benign edit)' % sid)
+                    continue
                 o.append('* `seeded/%s/patch.diff` → %s (independent sub-agent)' % (sid, m.get('expect_rule')))
             o.append('')
     return '\n'.join(o)
@@ -82,7 +85,10 @@ def gen_seeded():
     for pid in sorted(seed):
         for sid, m in seed[pid]:
             h = hist.get(sid, {})
-            o.append('| `%s` | %s | %s | %s | %s | %s `%s` |' % (sid, pid, esc(m.get('needs', '')), esc(h.get('first', '?')), esc(h.get('then', '?')), m.get('expect_rule'), esc(m.get('expect_key_contains', ''))))
+            today = '%s `%s`' % (m.get('expect_rule'), esc(m.get('expect_key_contains', '')))
+            if m.get('retired'):
+                today = 'nothing (retired: the change is behaviour-preserving today)'
+            o.append('| `%s` | %s | %s | %s | %s | %s |' % (sid, pid, esc(m.get('needs', '')), esc(h.get('first', '?')), esc(h.get('then', '?')), today))
     return '\n'.join(o)
 
 blocks = {'rules': gen_rules(), 'findings': gen_findings(), 'seeded': gen_seeded()}
